@@ -39,6 +39,7 @@ def run(rep):
     rep.run(C06.fallback_and_dispatch)
     rep.run(_comp_fallback)
     rep.run(C06.component_aware)
+    rep.run(C06.candidates)
     rep.alias = {}
     rep.run(repeated)
 
